@@ -405,21 +405,23 @@ class Parser:
                 self.pop_token()
                 return None
 
+            # Only the items that are pushed onto the stack while parsing this
+            # subcircuit belong to it.
+            stack_length: int = self.get_stack_length()
+
             while type(self.peek(0)) not in [Comma, Colon, RCurly]:
                 if self.peek(0) is None:
                     raise InsufficientTokens()
                 self.main_loop()
 
-            elements: List[Element] = []
+            elements: List[Union[Element, Connection]] = []
 
-            while not self.is_stack_empty():
+            while self.get_stack_length() > stack_length:
                 con = self.pop_stack()
-                if not isinstance(con, Element):
+                if not (isinstance(con, Element) or isinstance(con, Connection)):
                     raise TypeError(f"Expected an Element instead of {con=}")
 
                 elements.insert(0, con)
-
-            elements.reverse()
 
             return Series(elements)
 
